@@ -257,7 +257,11 @@ func (x *Explorer) worker(id int) {
 				sv.log = f
 			}
 			if x.cfg.AltSolver != "" {
-				alt, err = NewSolver(x.cfg.AltSolver, x.cfg.TimeoutMs)
+				altMs := x.cfg.TimeoutMs
+				if altMs > 5000 {
+					altMs = 5000 // the second opinion is advisory: unknown within 5 s counts as "no opinion"
+				}
+				alt, err = NewSolver(x.cfg.AltSolver, altMs)
 				if err != nil {
 					fmt.Fprintln(os.Stderr, "cannot start alt solver:", err)
 					os.Exit(2)
